@@ -18,7 +18,7 @@ def run(pid, tier, maxw=2):
         print("==", sig, len(fs))
         for f in fs[:maxw]:
             c = f["case"]
-            if isinstance(c, dict) and "src" in c and os.environ.get("TRIAGE_SRC", "1") == "1":
+            if isinstance(c, dict) and "src" in c and os.environ.get("TRIAGE_SRC", "1") == "1" and isinstance(f["expected"], tuple):
                 print("   ---"); print("   " + c["src"].replace("\n", "\n   "))
                 e, o = f["expected"], f["observed"]
                 print("     exc py/ps:", e[2], o[2], " detail:", f.get("detail"))
